@@ -329,6 +329,23 @@ fn run() {
             if let Some(kind) = class.strip_prefix("VIOLATION:") {
                 r.violation(&format!("shuffle:{kind}:{}", f.channel.gate), &what, json!({"part":"shuffle","case":case_json(c),"fault":f.to_json()}));
             } else {
+                if class == "harmless" && !f.channel.gate.contains("generate_tags") {
+                    // outside the tag-generation multiplications (whose vectors carry unused lanes) every
+                    // byte sent belongs to a table, a row count or a verification hash
+                    r.violation(
+                        &format!("shuffle:alteration-unnoticed:{}", f.channel.gate.rsplit('/').next().unwrap_or("")),
+                        &format!("helper {} altered {:?} of a message on {} and both honest helpers returned rows without failing", f.channel.source, f.kind, f.channel.gate),
+                        json!({"part":"shuffle","case":case_json(c),"fault":f.to_json()}),
+                    );
+                    continue;
+                }
+                if class == "harmless" {
+                    // where unnoticed alterations without effect happen (reported in the evidence)
+                    r.set("harmless_alterations", format!("S{}:{}:{}", c.shards, f.channel.gate.rsplit('/').next().unwrap_or(""), match f.kind { FaultKind::Xor { .. } => "bit-flip", FaultKind::Zero => "zeroed", _ => "count-replaced" }));
+                    if std::env::var("VERIF_VERBOSE").is_ok() {
+                        eprintln!("harmless: {}", f.to_json());
+                    }
+                }
                 *hist.entry(class).or_default() += 1;
             }
         }
